@@ -21,6 +21,10 @@ import asyncio
 from dst.core.vloop import new_loop
 from dst.world import clockshim, hdlc_ref
 
+# what a connection factory can fail with: refused/unreachable/timeouts, but also programming or
+# configuration errors surfacing as other exception types (serial port name, TLS, DNS ...)
+EXC_TYPES = {"OSError": OSError, "ConnectionRefusedError": ConnectionRefusedError, "TimeoutError": TimeoutError, "asyncio.TimeoutError": asyncio.TimeoutError,
+             "RuntimeError": RuntimeError, "ValueError": ValueError, "KeyError": KeyError, "EOFError": EOFError}
 MAX_ITER_DEFAULT = 20000
 TASK_SLACK = 8  # I4: pending tasks allowed beyond the harness's own
 
@@ -166,7 +170,7 @@ class ManagerRig:
                     await asyncio.sleep(d)
                 if spec["o"] == "fail":
                     rig.record("attempt_fail", idx=idx)
-                    raise OSError(f"simulated connect failure #{idx}")
+                    raise EXC_TYPES.get(spec.get("exc"), OSError)(f"simulated connect failure #{idx}")
                 transport = FakeTransport(rig, len(rig.transports))
                 rig.transports.append(transport)
                 rig.live_set.add(transport.conn_id)
